@@ -220,7 +220,8 @@ pub fn run(ctx: &Ctx) -> i32 {
         }
       }
       Job::Nested(d) => {
-        for h in class_cells(*d).into_iter().chain(carry_cells(*d, true).into_iter()) {
+        let hw: Vec<u64> = if [17u8, 20, 24, 29].contains(d) || (!quick && *d >= 14) { halfword_sweep_cells(*d) } else { vec![] };
+        for h in class_cells(*d).into_iter().chain(carry_cells(*d, true).into_iter()).chain(hw.into_iter()) {
           part.stratum("nested-class-cells", 1, 2);
           if let Some(v) = check_nested_cell(*d, h, &mut part) {
             part.viol(v);
